@@ -137,7 +137,8 @@ def g_dropin(prop, bound):
     for sh in harness.shapes(*bound):
         T += [dict(unit='sig_eq', shape=sh, other=o) for o in OTHERS]
         T += [dict(unit='sig_replace', shape=sh, other=o) for o in ('keep', 'override')]
-        T += [dict(unit='sig_init', shape=sh), dict(unit='sig_init_plain', shape=sh), dict(unit='sig_replace_plain', shape=sh)]
+        T += [dict(unit='sig_init', shape=sh), dict(unit='sig_init_plain', shape=sh), dict(unit='sig_replace_plain', shape=sh),
+              dict(unit='sig_init_iter', shape=sh), dict(unit='sig_replace_iter', shape=sh), dict(unit='sig_init_plain_iter', shape=sh)]
         if sh[3] == 0:
             T += [dict(unit='sig_evaluated', shape=sh)]
     return dict(name='upgraded inspect classes', bound='parameter-level units: none (tier P, all five kinds, every field symbolic); signature-level units: ' + bound_text(bound) +
